@@ -99,7 +99,7 @@ fn server(sh: Arc<Shared>) {
                 // the reply is tagged with the step it answers (stratum field)
                 let tag = ((sh.step.load(Ordering::SeqCst) as u32).wrapping_sub(1) & 0xffff) as u16;
                 // (the root delay differs from poll to poll: a report can be told from its neighbours)
-                let r = Report { ref_id: PHC_REFID, leap: 0, ref_time_ns: T0_REAL_S as i128 * NS, correction_bits: float_bits(1 << 12, 0), delay_bits: delay_bits_of(tag), dispersion_bits: float_bits(1 << 12, 0), interval_bits: bits_of_f64(16.0) };
+                let r = report_of(tag);
                 if let Action::SlowAnswer(ms) = mode {
                     if sh.requests_this_step.load(Ordering::SeqCst) == 1 {
                         std::thread::sleep(Duration::from_millis(ms as u64));
@@ -140,6 +140,24 @@ fn server(sh: Arc<Shared>) {
             }
             _ => std::thread::sleep(Duration::from_micros(50)),
         }
+    }
+}
+
+/// What chronyd says at the poll with this tag: every field the writer classifies or computes with
+/// differs from poll to poll (leap status 0..3, update intervals including 0 right after a non-zero
+/// one, reference times a few seconds in the past or the future, offsets of either sign), so that a
+/// poller which repairs, remembers or substitutes any of them is told from one that passes the
+/// report on as it came.
+fn report_of(tag: u16) -> Report {
+    let t = tag as i64;
+    Report {
+        ref_id: PHC_REFID,
+        leap: [0u16, 0, 1, 0, 2, 3, 0, 0][(t % 8) as usize],
+        ref_time_ns: T0_REAL_S as i128 * NS + ((t % 11) - 7) as i128 * 700_000_000,
+        correction_bits: float_bits(if t % 3 == 0 { -1 } else { 1 } * ((1 << 12) + t % 77), 0),
+        delay_bits: delay_bits_of(tag),
+        dispersion_bits: float_bits((1 << 12) + t % 13, 0),
+        interval_bits: bits_of_f64([16.0f64, 0.0, 1.0, 0.0, 1024.0, 64.0, 0.0, 0.125, 16.0][((t / 2) % 9) as usize]),
     }
 }
 
@@ -431,6 +449,17 @@ pub fn run(a: &Args) -> Value {
                 }
                 if f64::from(tr.root_delay) != crate::wire::f64_of_bits(delay_bits_of(i as u16)) {
                     violation(&mut violations, a, "C12", "report-not-from-this-poll", format!("step {} (as_of {} ns): the measurement message carries root delay {} s, chronyd's reply to this poll's request said {} s — the values are those of another poll's reply", i, as_of_ns, f64::from(tr.root_delay), crate::wire::f64_of_bits(delay_bits_of(i as u16))), json!({"script": format!("{:?}", script)}));
+                }
+                if tr.stratum == (i as u16) {
+                    let want = crate::wire::tracking_of(&report_of(i as u16));
+                    let same = tr.ref_id == want.ref_id && tr.leap_status == want.leap_status && tr.ref_time == want.ref_time && tr.current_correction == want.current_correction
+                        && tr.root_delay == want.root_delay && tr.root_dispersion == want.root_dispersion && tr.last_update_interval == want.last_update_interval;
+                    *kinds.entry("reports-compared-field-by-field".to_string()).or_insert(0) += 1;
+                    if !same {
+                        violation(&mut violations, a, "C10", "report-altered-by-the-poller", format!("step {}: chronyd's reply said leap {} ref_time {:?} correction {} delay {} dispersion {} interval {}; the measurement message handed to the writer says leap {} ref_time {:?} correction {} delay {} dispersion {} interval {}", i,
+                            want.leap_status, want.ref_time, f64::from(want.current_correction), f64::from(want.root_delay), f64::from(want.root_dispersion), f64::from(want.last_update_interval),
+                            tr.leap_status, tr.ref_time, f64::from(tr.current_correction), f64::from(tr.root_delay), f64::from(tr.root_dispersion), f64::from(tr.last_update_interval)), json!({"script": format!("{:?}", script)}));
+                    }
                 }
                 if tr.stratum != (i as u16) {
                     violation(&mut violations, a, "C12", "report-not-from-this-poll", format!("step {} (as_of {} ns): the measurement message carries chronyd's reply to the request of step {} — its as_of was not read before the request that produced the report", i, as_of_ns, tr.stratum), json!({"script": format!("{:?}", script)}));
